@@ -403,14 +403,16 @@ Theorem closed_state k h sched :
   legal k h = true ->
   let s := lrun k sched (linit h) in
   close_returned s = true ->
-  socket_open s = false /\ (is_pooled k = true -> pool_running s = false /\ idle s + in_flight s = 0).
+  socket_open s = false /\ loop_running s = false
+  /\ (is_pooled k = true -> pool_running s = false /\ idle s + in_flight s = 0).
 Proof.
   intros Hl s Hc. pose proof (LInv_run k sched _ (LInv_init k h Hl)) as (HA & HI & HW). fold s in HA, HI, HW.
   revert Hc HI HW. generalize s. clear. intros s.
-  destruct s as [p td ret m l sr isd fl so po id nf]. unfold fin_inv, close_returned.
+  destruct s as [p td ret m l sr isd fl so po id nf]. unfold fin_inv, close_returned, loop_running.
   cbn [phase_ todo returned mpc_ loop shutdown_request is_shut_down serving_flag socket_open pool_running idle in_flight].
   intros Hc HI HW. destruct p; try discriminate Hc. destruct m; try discriminate Hc.
-  split.
+  split; [|split].
+  - destruct k, l, sr, isd, fl, so, po; prune HI; reflexivity.
   - destruct k, l, sr, isd, fl, so, po; prune HI; reflexivity.
   - intros Hk. split; [|auto]. destruct k; [discriminate Hk|].
     destruct l, sr, isd, fl, so, po; prune HI; reflexivity.
